@@ -142,8 +142,8 @@ func (d *storeDom) Gen(r *gen.R, tier string, emit func(string)) {
 	for b := 0; b < blocks; b++ {
 		emit(wire.Line("reset"))
 		model := r.Bool()
-		tkind := r.Pick([]string{"F", "T", "X", "X"})
-		trans := tkind != "F"
+		tkind := r.Pick([]string{"F", "T", "X", "X", "H"})
+		trans := tkind != "F" && tkind != "H"
 		typ := "coll"
 		if model {
 			typ = "model"
@@ -151,6 +151,10 @@ func (d *storeDom) Gen(r *gen.R, tier string, emit func(string)) {
 		pool := storeElems
 		if r.Bool() {
 			pool = storeElems[:3]
+		}
+		if tkind == "H" {
+			// values the transformer hides (Transform fails with not-found): collections holding "H", models with key h
+			pool = append(append([]string{}, pool[:3]...), `"H"`)
 		}
 		cfg := []string{"cfg", typ, tkind}
 		if r.Bool() {
@@ -176,6 +180,10 @@ func (d *storeDom) Gen(r *gen.R, tier string, emit func(string)) {
 			var val []string
 			if model {
 				val = genModel(r, 4)
+				if tkind == "H" && r.Chance(1, 3) {
+					n, _ := strconv.Atoi(val[0])
+					val = append([]string{strconv.Itoa(n + 1)}, append(val[1:], "h", "1")...)
+				}
 			} else if c, ok := cur[k]; ok && r.Chance(3, 4) {
 				val = mutateColl(r, c, pool)
 			} else {
@@ -333,6 +341,23 @@ func (d *storeDom) Exec(a []string) string {
 					}
 					// like a real transformer, it only knows the store's value type
 					return nil, errors.New("transform: unexpected value type")
+				})
+			} else if a[2] == "H" {
+				// ids are resource ids; the transformer hides some values (as a soft-delete flag would)
+				h.Transformer = store.TransformFuncs(nil, nil, func(id string, v interface{}) (interface{}, error) {
+					switch x := v.(type) {
+					case []json.RawMessage:
+						for _, e := range x {
+							if string(e) == `"H"` {
+								return nil, res.ErrNotFound
+							}
+						}
+					case map[string]json.RawMessage:
+						if _, ok := x["h"]; ok {
+							return nil, res.ErrNotFound
+						}
+					}
+					return v, nil
 				})
 			} else if d.trans {
 				h.Transformer = store.IDTransformer("id", nil)
